@@ -1023,9 +1023,10 @@ func (comp) Gen(r *kit.Rng, maxLen int, tier string) kit.Case {
 		d.bad = err != nil
 		dests = append(dests, d)
 	}
-	sto := 5000
+	// BatchSendTimeout runs on the real clock: generous unless the case contains real hangs
+	sto := 120000
 	if hang {
-		sto = 300
+		sto = 1000
 	}
 	hdr := fmt.Sprintf("mb=%d bt=%d z=%d ah=%d sto=%d nd=%d", mb, btms, r.Intn(2), r.Pick(70, 30), sto, nd)
 	for i, d := range dests {
